@@ -110,8 +110,8 @@ func (s *Server) typecheck(ctx context.Context, uri lsp.DocumentURI, version uin
 		rng, _, _ := strings.Cut(content[p.Origin.Offset:p.Origin.EndOffset], "\n")
 		res = append(res, lsp.Diagnostic{
 			Range: lsp.Range{
-				Start: lsp.Position{Line: uint32(p.Origin.Line - 1), Character: uint32(p.Origin.Column - 1)},
-				End:   lsp.Position{Line: uint32(p.Origin.Line - 1), Character: uint32(p.Origin.Column - 1 + len(rng))},
+				Start: lsp.Position{Line: uint32(p.Origin.Line - 1), Character: uint32(utf16Col(content, p.Origin.Offset, p.Origin.Column-1))},
+				End:   lsp.Position{Line: uint32(p.Origin.Line - 1), Character: uint32(utf16Col(content, p.Origin.Offset, p.Origin.Column-1) + utf16Len(rng))},
 			},
 			Severity: lsp.DiagnosticSeverityError,
 			Message:  p.Msg,
@@ -209,15 +209,35 @@ func (id id) Kind() int {
 
 func (id id) Location(uri lsp.DocumentURI) lsp.Location {
 	line, col := id.Node.LineColumn()
+	start := utf16Col(id.Node.Tree().Text(), id.Node.Offset(), col-1)
 
-	// Note: this function does not handle Unicode correctly
 	return lsp.Location{
 		URI: uri,
 		Range: lsp.Range{
-			Start: lsp.Position{Line: uint32(line - 1), Character: uint32(col - 1)},
-			End:   lsp.Position{Line: uint32(line - 1), Character: uint32(col - 1 + len(id.Node.Text()))},
+			Start: lsp.Position{Line: uint32(line - 1), Character: uint32(start)},
+			End:   lsp.Position{Line: uint32(line - 1), Character: uint32(start + utf16Len(id.Node.Text()))},
 		},
 	}
+}
+
+// utf16Len returns the number of UTF-16 code units in s (the unit of LSP positions).
+func utf16Len(s string) int {
+	var n int
+	for _, r := range s {
+		n++
+		if r > 0xffff {
+			n++
+		}
+	}
+	return n
+}
+
+// utf16Col converts a 0-based byte column of the given offset into UTF-16 code units.
+func utf16Col(content string, offset, byteCol int) int {
+	if byteCol <= 0 || byteCol > offset || offset > len(content) {
+		return byteCol
+	}
+	return utf16Len(content[offset-byteCol : offset])
 }
 
 func collectIDs(ctx context.Context, filename, content string) []id {
